@@ -106,7 +106,14 @@ def first_problem(history, ref, got):
     # (2) whole outcome list equals the CPython twin.  `del name` of a missing global raises AttributeError in compiled code
     # (NameError in CPython): not a lookup, so only "raised or not" is compared for deleter calls (reported in notes/C26.md).
     def norm(entries):
-        return [[e[0], e[1], ["str", "'raised'"]] if e[0][1] == "'del'" and e[2][1] != "'ok'" else e for e in entries]
+        out = []
+        for e in entries:
+            if e[0][1] == "'del'" and e[2][1] != "'ok'":
+                e = [e[0], e[1], ["str", "'raised'"]]
+            elif e[0][1] == "'rd'" and e[1][1][0][1] != "'ok'":
+                e = [e[0], ["str", "'raised'"]]          # rd_ga() contains a `del ga`
+            out.append(e)
+        return out
     if er is not None:
         er, eg = norm(er), norm(eg)
     if er is not None and er != eg:
